@@ -124,6 +124,9 @@ def stereo_mols(tier):
     from rdkit.Chem import AllChem
     out = []
     fam = inputs.ring_stereo_family()[:: (3 if tier == 'quick' else 1)] + ['C[C@H](N)C(=O)O', 'C/C=C/C', 'C/C=C\\C', 'C[C@H](O)/C=C/C', 'CC=[C@]=CC', 'C[C@@H]1CCCC[C@H]1C', 'F[C@](Cl)(Br)I']
+    for t_ in ('C[C{0}H](O)[C{1}H](O)[C{2}H](O)C', 'C[C{0}H]1C[C{1}H](C)C[C{2}H](C)C1', 'O[C{0}H]1[C{1}H](O)[C{2}H]1O', 'C[C{0}H](O)[C{1}H](O)C'):
+        for cmb in itertools.product(('@', '@@'), repeat=t_.count('{')):
+            fam.append(t_.format(*cmb))
     fam += [s for s in M.corpus(stride=16 if tier == 'quick' else 4) if ('@' in s or '/' in s)]
     for s in fam:
         rd = Chem.MolFromSmiles(s)
